@@ -50,6 +50,64 @@ theorem open_consumes (n : Node) :
     (step n .open_).1.wal.consumed = n.wal.recs.length ∧ (step n .open_).1.pwal.consumed = n.pwal.recs.length :=
   ⟨rfl, rfl⟩
 
+/-- an operation other than `open` moves neither read cursor -/
+theorem consumed_step_of_ne_open (n : Node) (op : Op) (h : op ≠ .open_) :
+    (step n op).1.wal.consumed = n.wal.consumed ∧ (step n op).1.pwal.consumed = n.pwal.consumed := by
+  have hrecs : ∀ (w : Wal Rec) (rs : List Rec), (appendRecs w rs).consumed = w.consumed := by
+    intro w rs
+    induction rs generalizing w with
+    | nil => rfl
+    | cons r rs ih => simp only [appendRecs, List.foldl_cons] at ih ⊢; rw [ih]; rfl
+  cases op with
+  | open_ => exact absurd rfl h
+  | restart => exact ⟨rfl, rfl⟩
+  | kill => exact ⟨rfl, rfl⟩
+  | append es =>
+    simp only [step, stepG]
+    cases n.live with
+    | none => exact ⟨rfl, rfl⟩
+    | some lv => exact ⟨hrecs _ _, rfl⟩
+  | truncate l => simp only [step, stepG]; cases n.live <;> exact ⟨rfl, rfl⟩
+  | purge l =>
+    simp only [step, stepG]
+    cases n.live with
+    | none => exact ⟨rfl, rfl⟩
+    | some lv => simp only; cases memPurge lv.mem l <;> exact ⟨rfl, rfl⟩
+  | vote v => simp only [step, stepG]; cases n.live <;> exact ⟨rfl, rfl⟩
+  | committed c => simp only [step, stepG]; cases n.live <;> exact ⟨rfl, rfl⟩
+  | peer id port =>
+    simp only [step, stepG]
+    cases n.live with
+    | none => exact ⟨rfl, rfl⟩
+    | some lv => simp only; split <;> exact ⟨rfl, rfl⟩
+  | state => simp only [step, stepG]; cases n.live <;> exact ⟨rfl, rfl⟩
+
+theorem consumed_run_no_open (ops : List Op) (n : Node) (a : Ack) (hno : ∀ op ∈ ops, op ≠ .open_) :
+    (run n a ops).1.wal.consumed = n.wal.consumed ∧ (run n a ops).1.pwal.consumed = n.pwal.consumed := by
+  induction ops generalizing n a with
+  | nil => exact ⟨rfl, rfl⟩
+  | cons op r ih =>
+    have h1 := consumed_step_of_ne_open n op (hno op List.mem_cons_self)
+    have h2 := ih (step n op).1 (ackStep a op (step n op).2) (fun o ho => hno o (List.mem_cons_of_mem _ ho))
+    exact ⟨h2.1.trans h1.1, h2.2.trans h1.2⟩
+
+/-- **What the next process sees, exactly.**  Open a store (any state of the logs), run any operations (no further
+`open`), restart, open again: the new process is handed the replay of the records appended *since the previous
+open* and nothing older - whatever had been acknowledged before that open is gone from its view, although it is
+still in the log (`C21_logs_hold_ack`). -/
+theorem C21_next_open_reports_only_new (n : Node) (a : Ack) (ops : List Op) (hno : ∀ op ∈ ops, op ≠ .open_) :
+    let n2 := (run (step n .open_).1 a ops).1
+    (step n2 .open_).1.live = some
+      { mem := replay {} (n2.wal.recs.drop n.wal.recs.length),
+        peers := peersOf AMap.empty (n2.pwal.recs.drop n.pwal.recs.length) } := by
+  intro n2
+  have hc := consumed_run_no_open ops (step n .open_).1 a hno
+  have ho := open_consumes n
+  rw [C21_reopen_reports_suffix]
+  show some _ = some _
+  rw [show n2.wal.consumed = n.wal.recs.length from hc.1.trans ho.1,
+      show n2.pwal.consumed = n.pwal.recs.length from hc.2.trans ho.2]
+
 theorem run_liveOk (ops : List Op) (n : Node) (a : Ack) (hi : Inv n a) (hl : LiveOk n a) (hq : quirkFree n ops = true) :
     LiveOk (run n a ops).1 (run n a ops).2 := by
   induction ops generalizing n a with
@@ -71,6 +129,121 @@ theorem C21_partial (ops : List Op) (hq : quirkFree {} ops = true) :
     ∀ lv, (run {} {} ops).1.live = some lv →
       lv.mem = (run {} {} ops).2.mem ∧ ∀ k, lv.peers.get? k = (run {} {} ops).2.peers.get? k :=
   run_liveOk ops {} {} inv_init (fun _ h => by simp at h) hq
+
+/-! ### the hypothesis of `C21_partial` in plain terms: at most one `open` finds data -/
+
+def hasData (n : Node) : Bool := !n.wal.recs.isEmpty || !n.pwal.recs.isEmpty
+
+/-- how many `open`s of the history find a non-empty log -/
+def opensOnData (n : Node) : List Op → Nat
+  | [] => 0
+  | .open_ :: r => (if hasData n then 1 else 0) + opensOnData (step n .open_).1 r
+  | op :: r => opensOnData (step n op).1 r
+
+theorem recs_mono_step (n : Node) (op : Op) :
+    n.wal.recs.length ≤ (step n op).1.wal.recs.length ∧ n.pwal.recs.length ≤ (step n op).1.pwal.recs.length := by
+  have happ : ∀ (w : Wal Rec) (rs : List Rec), w.recs.length ≤ (appendRecs w rs).recs.length := by
+    intro w rs; rw [appendRecs_recs]; simp
+  cases op with
+  | open_ => exact ⟨Nat.le_refl _, Nat.le_refl _⟩
+  | restart => exact ⟨Nat.le_refl _, Nat.le_refl _⟩
+  | kill => exact ⟨Nat.le_refl _, Nat.le_refl _⟩
+  | append es =>
+    simp only [step, stepG]
+    cases n.live with
+    | none => exact ⟨Nat.le_refl _, Nat.le_refl _⟩
+    | some lv => exact ⟨happ _ _, Nat.le_refl _⟩
+  | truncate l => simp only [step, stepG]; cases n.live <;> simp [Wal.append]
+  | purge l =>
+    simp only [step, stepG]
+    cases n.live with
+    | none => exact ⟨Nat.le_refl _, Nat.le_refl _⟩
+    | some lv => simp only; cases memPurge lv.mem l <;> simp [Wal.append]
+  | vote v => simp only [step, stepG]; cases n.live <;> simp [Wal.append]
+  | committed c => simp only [step, stepG]; cases n.live <;> simp [Wal.append]
+  | peer id port =>
+    simp only [step, stepG]
+    cases n.live with
+    | none => exact ⟨Nat.le_refl _, Nat.le_refl _⟩
+    | some lv => simp only; split <;> simp [Wal.append]
+  | state => simp only [step, stepG]; cases n.live <;> exact ⟨Nat.le_refl _, Nat.le_refl _⟩
+
+/-- the cursors never pass the end of their logs -/
+def CursorsOk (n : Node) : Prop := n.wal.consumed ≤ n.wal.recs.length ∧ n.pwal.consumed ≤ n.pwal.recs.length
+
+theorem cursorsOk_step (n : Node) (op : Op) (h : CursorsOk n) : CursorsOk (step n op).1 := by
+  by_cases ho : op = .open_
+  · subst ho; exact ⟨Nat.le_refl _, Nat.le_refl _⟩
+  · have h1 := consumed_step_of_ne_open n op ho
+    have h2 := recs_mono_step n op
+    unfold CursorsOk at *
+    rw [h1.1, h1.2]; exact ⟨Nat.le_trans h.1 h2.1, Nat.le_trans h.2 h2.2⟩
+
+theorem quirkFree_of_opensOnData (ops : List Op) :
+    ∀ (n : Node), CursorsOk n →
+      ((n.wal.consumed = 0 ∧ n.pwal.consumed = 0) → opensOnData n ops ≤ 1) →
+      (¬ (n.wal.consumed = 0 ∧ n.pwal.consumed = 0) → opensOnData n ops = 0) →
+      quirkFree n ops = true := by
+  induction ops with
+  | nil => intro n _ _ _; rfl
+  | cons op r ih =>
+    intro n hc h0 h1
+    by_cases ho : op = .open_
+    · subst ho
+      simp only [quirkFree, Bool.and_eq_true, Bool.not_eq_true']
+      by_cases hz : n.wal.consumed = 0 ∧ n.pwal.consumed = 0
+      · refine ⟨by simp [quirkReadAllConsumes, hz.1, hz.2], ?_⟩
+        have hle := h0 hz
+        simp only [opensOnData] at hle
+        apply ih _ (cursorsOk_step n .open_ hc)
+        · intro _
+          by_cases hd : hasData n = true
+          · simp only [hd, if_true] at hle; omega
+          · simp only [hd, if_false] at hle; omega
+        · intro hnz
+          -- the cursors moved: the logs were not empty, so this open was counted
+          have hd : hasData n = true := by
+            unfold hasData
+            have hoc := open_consumes n
+            rw [hoc.1, hoc.2] at hnz
+            by_cases e1 : n.wal.recs = []
+            · by_cases e2 : n.pwal.recs = []
+              · exfalso; apply hnz; simp [e1, e2]
+              · simp [e2]
+            · simp [e1]
+          simp only [hd, if_true] at hle; omega
+      · -- a cursor has moved already: this open finds data and is a second one
+        exfalso
+        have hz1 := h1 hz
+        simp only [opensOnData] at hz1
+        have hd : hasData n = true := by
+          unfold hasData
+          by_cases e1 : n.wal.consumed = 0
+          · have e2 : n.pwal.consumed ≠ 0 := fun e => hz ⟨e1, e⟩
+            have : n.pwal.recs ≠ [] := by
+              intro e; have := hc.2; rw [e] at this; simp at this; exact e2 this
+            simp [this]
+          · have : n.wal.recs ≠ [] := by
+              intro e; have := hc.1; rw [e] at this; simp at this; exact e1 this
+            simp [this]
+        simp only [hd, if_true] at hz1; omega
+    · have hq : quirkReadAllConsumes n op = false := by cases op <;> first | rfl | exact absurd rfl ho
+      have hstep : opensOnData n (op :: r) = opensOnData (step n op).1 r := by
+        cases op <;> first | rfl | exact absurd rfl ho
+      have hcons := consumed_step_of_ne_open n op ho
+      simp only [quirkFree, hq, Bool.not_false, Bool.true_and]
+      apply ih _ (cursorsOk_step n op hc)
+      · intro hz; rw [hcons.1, hcons.2] at hz; rw [← hstep]; exact h0 hz
+      · intro hz; rw [hcons.1, hcons.2] at hz; rw [← hstep]; exact h1 hz
+
+/-- **C21 (partial), readable hypothesis.** Every history in which at most one `open` finds a non-empty log -
+in particular every history with at most one reopen after the first record was written - leaves the open store
+reporting exactly the acknowledged state. -/
+theorem C21_partial_at_most_one_open_on_data (ops : List Op) (h : opensOnData {} ops ≤ 1) :
+    ∀ lv, (run {} {} ops).1.live = some lv →
+      lv.mem = (run {} {} ops).2.mem ∧ ∀ k, lv.peers.get? k = (run {} {} ops).2.peers.get? k :=
+  C21_partial ops (quirkFree_of_opensOnData ops {} ⟨Nat.le_refl _, Nat.le_refl _⟩ (fun _ => h)
+    (fun hn => absurd ⟨rfl, rfl⟩ hn))
 
 /-- the hypothesis of `C21_partial` is met by a history with real content and one reopen … -/
 example : quirkFree {}
@@ -95,6 +268,9 @@ theorem C21_counterexample :
     (run {} {} witness).2.mem.log.length = 4 ∧
     (run {} {} witness).2.peers.get? 2 = some 5002 := by
   decide +kernel
+
+/-- the witness history has two opens on data -/
+example : opensOnData {} witness = 2 := by decide +kernel
 
 theorem runNC_liveOk (ops : List Op) (n : Node) (a : Ack) (hi : Inv n a) (hl : LiveOk n a) :
     LiveOk (runNC n a ops).1 (runNC n a ops).2 := by
